@@ -301,6 +301,33 @@ func c18(r *core.Run) {
 			}
 		}
 	}
+	// ---- every ordered pair of the decimal spellings / storage classes (incl. the precisions at
+	// which the storage width changes: 9|10, 18|19, 38|39) ----
+	{
+		var decs []val.Entry
+		for _, e := range pool {
+			if e.Leaf && strings.HasPrefix(e.Type, "Decimal") {
+				decs = append(decs, e)
+			}
+		}
+		for i := range decs {
+			for j := range decs {
+				ci++
+				if !r.Take(ci) {
+					continue
+				}
+				rng := r.Rand(ci, "dec")
+				rows := []int{1, 3}[rng.Intn(2)]
+				cols := []c18Col{mkCol(decs[i], "a"), mkCol(pool[(i+5)%len(pool)], "b")}
+				data := c18Block(rng, cols, rows)
+				targets := []c18Target{mkTarget(decs[j], "a"), mkTarget(pool[(i+5)%len(pool)], "b")}
+				cs := map[string]any{"block": []string{cols[0].TS, cols[1].TS}, "targets": []string{targets[0].TS, targets[1].TS}, "rows": rows}
+				r.Eval()
+				r.NonTrivial("decimal-pair", decs[i].Type, decs[j].Type, rows)
+				c18Check(r, "decimal-pair", cols, rows, data, targets, cs)
+			}
+		}
+	}
 	// ---- structural mutations over random schemas ----
 	n := r.Pick(3000, 60000)
 	for k := 0; k < n; k++ {
